@@ -1,2 +1,33 @@
-(* C06 — placeholder until the proofs land. *)
-From Goag Require Import Model.Json Spec.JsonSpec.
+(* C06 — JSON encoding then decoding returns the same value, via valid JSON.
+   [fmt_float]/[parse_num] and [fmt_time]/[parse_time] stand for
+   strconv/encoding-json number formatting and time.Format/Parse; their
+   round-trip premises are hypotheses of the theorem (trusted base). *)
+From Coq Require Import List ZArith.
+Import ListNotations.
+From Goag Require Import Base.Str Model.Params Model.Json Spec.JsonSpec
+     Proofs.JsonEncProofs Proofs.JsonRtProofs.
+
+(* Every value of a generated type encodes to a JSON value: whatever the allOf
+   structure (embedded $ref members and inline members in any order, embedded
+   members that write nothing) and whichever optional fields are set, the
+   hand-written comma/member sequence is well formed. *)
+Theorem C06_valid_json : forall fmt_float fmt_time (s : jsch) (v : gval),
+  typed s v -> exists j, enc fmt_float fmt_time s v = Ok j.
+Proof. exact enc_total. Qed.
+Print Assumptions C06_valid_json.
+
+(* Decoding the encoding returns the value, for every schema of the dialect and
+   every value in the domain [rt_ok] (DESIGN section 11): unset optionals stay
+   unset, null nullables stay null, map entries and allOf members are preserved. *)
+Theorem C06_roundtrip : forall fmt_float fmt_time parse_num parse_time,
+  (forall b r, parse_num b (fmt_float b r) = Some r) ->
+  (forall r, parse_time (fmt_time r) = Some r) ->
+  forall (s : jsch) (v : gval) (j : json),
+    rt_ok s v -> enc fmt_float fmt_time s v = Ok j -> dec parse_num parse_time s j = Ok v.
+Proof. exact roundtrip. Qed.
+Print Assumptions C06_roundtrip.
+
+(* the domain is a refinement of well-typedness *)
+Theorem C06_domain_typed : forall s v, rt_ok s v -> typed s v.
+Proof. exact rt_ok_typed. Qed.
+Print Assumptions C06_domain_typed.
